@@ -2,7 +2,7 @@ import Gomjml.Core.Lengths
 import Driver.PassP
 /-! driver sub-protocol `len <what> <hex text>`: `fields` → the fields (hex, comma separated; `-` for none);
     `px` / `bw` → `<neg> <mant> <frac>` or `none`; `hsp` → `<neg> <mant> <frac> <neg> <mant> <frac>`, `reject` (not one to four
-    values) or `none` (a value outside the modelled number grammar) -/
+    values) or `none` (a value outside the modelled number grammar); `sp` → `empty` / `reject` / `none` / four values; `img` → `zero` / `none` / the pair -/
 open Gomjml.Lengths
 
 namespace Driver.LenP
@@ -25,6 +25,17 @@ def handle (args : List String) : String :=
       match hsel (fields s) with
       | none => "reject"
       | some _ => match hspacing s with | some (a, b) => showDec a ++ " " ++ showDec b | none => "none"
+    | "sp" =>
+      match spacing s with
+      | .empty => "empty"
+      | .reject => "reject"
+      | .outside => "none"
+      | .ok t r b l => " ".intercalate [showDec t, showDec r, showDec b, showDec l]
+    | "img" =>
+      match imageShorthand s with
+      | .zero => "zero"
+      | .outside => "none"
+      | .pair l r => showDec l ++ " " ++ showDec r
     | _ => "bad-request"
   | _ => "bad-request"
 
